@@ -132,7 +132,11 @@ func variantsOf(p parts, r interface{ Intn(int) int }) []variant {
 	add("ver-wrapper-too-long", setVer([]byte{0xa0, 5, 2, 1, 2, 5, 0}))
 	add("ver-wrapper-too-short", setVer([]byte{0xa0, 2, 2, 1, 2}))
 	add("ver-not-integer", setVer([]byte{0xa0, 3, 4, 1, 2}))
-	add("ver-twice", func() parts { q := setVer([]byte{0xa0, 3, 2, 1, 2}); q.pre = append([][]byte{{0xa0, 3, 2, 1, 2}}, q.pre...); return q }())
+	add("ver-twice", func() parts {
+		q := setVer([]byte{0xa0, 3, 2, 1, 2})
+		q.pre = append([][]byte{{0xa0, 3, 2, 1, 2}}, q.pre...)
+		return q
+	}())
 
 	setF := func(i int, b []byte) parts { q := p.clone(); q.setField(i, b); return q }
 	for _, s := range []struct {
@@ -386,7 +390,12 @@ func (x *runner) fuzzCases(ca *authority, n int) {
 		} else {
 			sb = append(sb, two(r.Intn(100))...)
 		}
-		mo := 1 + pick(11, 0, 13) - func() int { if r.Intn(9) == 0 { return 1 }; return 0 }()
+		mo := 1 + pick(11, 0, 13) - func() int {
+			if r.Intn(9) == 0 {
+				return 1
+			}
+			return 0
+		}()
 		if mo < 0 {
 			mo = 0
 		}
